@@ -1,5 +1,5 @@
 (** C04 - runtime faults surface as Err: no panic, no silently wrapped number (handler level). *)
-From EE Require Import Chars OpTable Decimal Ast Value Names BuiltinLemmas.
+From EE Require Import Chars OpTable Decimal Ast Value Names Eval BuiltinLemmas LockInv ExecTotal.
 Open Scope N_scope.
 
 (* the result type of every built-in handler has no "panic" and no "wrapped" inhabitant: a handler returns a value,
@@ -60,3 +60,23 @@ Example C04_example :
   builtin_postfix n_inc (VNum (mkdec false 79228162514264337593543950335 0)) = Some AErr.
 Proof. vm_compute. repeat split. Qed.
 Print Assumptions C04_example.
+
+(* THE ENGINE NEVER PANICS: for every program text, every context, every table of registered operators and functions and every
+   nesting of handler re-entry - with handlers that do not themselves panic (in particular with the built-in handlers only) -
+   execute returns a value or an error (or, model only, abstains / runs out of the re-entry fuel of 12): never a panic, never
+   a deadlock, and no lock is left held or poisoned. Induction over the evaluator, the handler scripts and the fuel; the
+   parser's part is C01 (never panics, terminates). *)
+Theorem C04_engine_never_panics : forall b s c st, cs st ->
+  fst (run_exec b s c st) <> EPanic /\ fst (run_exec b s c st) <> EDeadlock /\ cs (snd (run_exec b s c st)).
+Proof. intros b s c st H. destruct (tot_run_exec b s c st H) as [C [D P]]. split; [exact P | split; [exact D | exact C]]. Qed.
+Print Assumptions C04_engine_never_panics.
+
+Theorem C04_exec_never_panics : forall b f e c st, cs st ->
+  fst (exec_fuel b f e c st) <> EPanic /\ fst (exec_fuel b f e c st) <> EDeadlock /\ cs (snd (exec_fuel b f e c st)).
+Proof. intros b f e c st H. destruct (tot_exec_fuel b f e c st H) as [C [D P]]. split; [exact P | split; [exact D | exact C]]. Qed.
+Print Assumptions C04_exec_never_panics.
+
+(* the premise is met by the engine's initial state *)
+Example C04_initial_calm : cs init_state.
+Proof. exact cs_init. Qed.
+Print Assumptions C04_initial_calm.
